@@ -13,6 +13,7 @@ import (
 
 	"github.com/olric-data/olric/internal/cluster/partitions"
 	"github.com/olric-data/olric/internal/discovery"
+	"github.com/olric-data/olric/internal/dmap"
 	"github.com/olric-data/olric/internal/kvstore/entry"
 	"github.com/olric-data/olric/internal/kvstore/table"
 	"github.com/olric-data/olric/internal/protocol"
@@ -45,6 +46,7 @@ type mergeEntry struct {
 	HKey uint64 `json:"h"`
 	TS   int64  `json:"ts"`
 	Big  bool   `json:"big"`
+	Exp  bool   `json:"exp"` // the entry carries a deadline that has passed
 	Key  string `json:"-"`
 	Val  string `json:"-"`
 }
@@ -99,6 +101,7 @@ type lwwItem struct {
 type lwwMergeObs struct {
 	Replies []string  `json:"replies"` // ok | err:<word> per delivery
 	Final   []lwwItem `json:"final"`
+	Evicted int64     `json:"evicted"` // keys the background eviction removed anywhere in the process while the case ran
 }
 
 type lwwRaceObs struct {
@@ -151,6 +154,9 @@ func buildTable(size uint64, es []mergeEntry) ([]byte, error) {
 		en.SetKey(e.Key)
 		en.SetValue([]byte(e.Val))
 		en.SetTimestamp(e.TS)
+		if e.Exp {
+			en.SetTTL(1)
+		}
 		if err := t.Put(e.HKey, en); err != nil {
 			return nil, fmt.Errorf("building a fragment table: %w", err)
 		}
@@ -342,6 +348,8 @@ func lwwOneMerge(ctx context.Context, cl *Cluster, name string, mg lwwMerge) (ob
 		payloads[fi] = p
 	}
 	rc := cl.Raw(target)
+	evicted0 := dmap.DeleteHits.Read() // every removal goes through deleteOnCluster; the case itself deletes nothing
+	defer func() { ob.Evicted = dmap.DeleteHits.Read() - evicted0 }()
 	for _, fi := range mg.Order {
 		if fi < 0 || fi >= len(payloads) {
 			continue
